@@ -112,16 +112,22 @@ def combineThrows (idx : List Nat) (t : Nat) : Bool :=
 Both accept threads (`SessionManager::accept_loop`, `ControlServer::Impl::accept_loop`) take one
 connection at a time and read from it with blocking `recv` before they accept the next one.
 A connection is abstracted to what it costs the accept thread: it completes its request after
-some time, it stays silent, or it never reads its answer.  `readT` / `writeT` are the bounds the code
-puts on a blocking read / write of an accepted connection (`none`: no bound). -/
+some time, or it stalls for good at one of the blocking steps of the accept thread. -/
+
+/-- the blocking steps of an accept thread on an accepted connection: reading a header line
+    (`recv_line`; for the transport: the peer id), reading the announced payload (`recv_exact`; for the
+    transport: the handshake payload), writing the answer (`send_all`) -/
+inductive Site where
+  | header | payload | write
+deriving DecidableEq, Repr
 
 inductive Conn where
   /-- sends what is expected of it and reads its answer; the accept thread is busy for `work` time units -/
   | completes (work : Nat)
-  /-- connects and then sends nothing (or not enough): the accept thread sits in a blocking read -/
-  | silent
-  /-- sends its request (`work`) and then never reads the answer: the accept thread sits in a blocking write -/
-  | neverReads (work : Nat)
+  /-- behaves for `work` time units and then stops for good while the accept thread waits at `site`:
+      silent client / stops inside the header block (`header`), delivers less payload than announced
+      (`payload`), never reads its answer (`write`) -/
+  | stalls (site : Site) (work : Nat)
 deriving DecidableEq, Repr
 
 /-- sends its request and reads its answer -/
@@ -132,34 +138,46 @@ def Conn.wellBehaved : Conn → Bool
 /-- the work the accept thread does for the connection before it can get stuck -/
 def Conn.work : Conn → Nat
   | .completes w => w
-  | .silent => 0
-  | .neverReads w => w
+  | .stalls _ w => w
 
-/-- time the accept thread spends on one connection; `none` = it never comes back.
-    `readT` / `writeT`: the bound on one blocking read / write of an accepted connection (`none` = unbounded) -/
-def holdTime (readT writeT : Option Nat) : Conn → Option Nat
+/-- per blocking site: how long one wait can last (`none` = unbounded) -/
+abbrev Bounds := Site → Option Nat
+
+/-- time the accept thread spends on one connection; `none` = it never comes back -/
+def holdTime (b : Bounds) : Conn → Option Nat
   | .completes w => some w
-  | .silent => readT
-  | .neverReads w => writeT.map (w + ·)
+  | .stalls s w => (b s).map (w + ·)
 
 /-- when the accept thread gets to the `k`-th queued connection (`none` = never) -/
-def pickedUpAt (readT writeT : Option Nat) : List Conn → Nat → Option Nat
+def pickedUpAt (b : Bounds) : List Conn → Nat → Option Nat
   | _, 0 => some 0
   | [], _ + 1 => some 0
   | c :: rest, k + 1 =>
-    match holdTime readT writeT c, pickedUpAt readT writeT rest k with
+    match holdTime b c, pickedUpAt b rest k with
     | some h, some t => some (h + t)
     | _, _ => none
 
-/-- the bound a flag regenerated from the source stands for (`T`: the timeout constant of the code) -/
-def ioBound (flag : Bool) (T : Nat) : Option Nat := if flag then some T else none
+/-- a wait is bounded by the timeout constant `T` when the timeout is set on the socket *and* the loop around
+    the call gives up on a timeout instead of going round again -/
+def ioBound (timeoutSet retriesOnTimeout : Bool) (T : Nat) : Option Nat :=
+  if timeoutSet && !retriesOnTimeout then some T else none
 
-/-- what the real-thread probe `rt stall` must observe for a client queued behind a silent one /
-    behind one that never reads -/
-def servedBehindSilent (readFlag : Bool) : Bool :=
-  (pickedUpAt (ioBound readFlag 1) none [.silent, .completes 0] 1).isSome
-def servedBehindDeaf (writeFlag : Bool) : Bool :=
-  (pickedUpAt none (ioBound writeFlag 1) [.neverReads 0, .completes 0] 1).isSome
+/-- the bounds the control accept thread has, from the flags regenerated from the source -/
+def controlBounds (T : Nat) : Bounds
+  | .header => ioBound controlReadTimeout controlLineReadRetries T
+  | .payload => ioBound controlReadTimeout controlPayloadReadRetries T
+  | .write => ioBound controlWriteTimeout controlWriteRetries T
+
+/-- … and the transport accept thread (its answer is one small frame: no blocking write) -/
+def transportBounds (T : Nat) : Bounds
+  | .header => ioBound transportPeerIdTimeout transportReadRetries T
+  | .payload => ioBound transportPeerIdTimeout transportReadRetries T
+  | .write => some T
+
+/-- what the real-thread probe `rt stall` must observe for a well-behaved client queued behind one that
+    stalls at `site` -/
+def servedBehind (b : Bounds) (site : Site) : Bool :=
+  (pickedUpAt b [.stalls site 0, .completes 0] 1).isSome
 
 /-! ### helpers for the driver -/
 
